@@ -128,20 +128,20 @@ Qed.
 
 (* C22 on the mirror: in the fragment of the flattening theorem every special probe of every construct, the
    function-entry code and the function-exit code occur in the emitted body *)
-Theorem special_probes_all_emitted (c : lcase) t fe fb sp n n' :
+Theorem special_probes_all_emitted (c : lcase) t fe fb sp n :
   parse_body (c_body c) = Some (t, fe) ->
   apply_plan false (c_plan c) (map (fun o => (o, no_flags)) (c_body c)) false = Some (fb, sp) ->
   forallb (fun x => nonreplacing (snd x)) fb = true ->
   let Fe := with0 (c_entry c) (flags_fn fb) in
-  forallb (instr_no_branch_sa Fe n) t = true -> forallb (instr_no_d15 Fe n') t = true -> t <> [] ->
+  forallb (instr_no_branch_sa Fe n) t = true -> t <> [] ->
   exists body, model c = Some (body, c_groups c) /\
     (forall i, In i (sites t) ->
        infix (f_be (flags_fn fb i)) body /\ infix (f_bx (flags_fn fb i)) body /\ infix (f_sa (flags_fn fb i)) body) /\
     infix (c_entry c) body /\ infix (c_exit c) body.
 Proof.
-  intros Hp Ha Hnr Fe Hsa Hd Hne.
+  intros Hp Ha Hnr Fe Hsa Hne.
   exists (tie_body Fe (c_exit c) (c_exit_ty c) t fe). split.
-  { exact (model_flatten_real c t fe fb sp n n' Hp Ha Hnr Hsa Hd Hne). }
+  { exact (model_flatten_real c t fe fb sp n Hp Ha Hnr Hsa Hne). }
   destruct t as [|x rest]; [congruence|].
   destruct (parse_body_positions _ _ _ _ Hp) as (Hh & _ & _).
   assert (Hentry : exists p, f_before (Fe 0) = p ++ c_entry c).
